@@ -73,7 +73,9 @@ def points(tier):
     pts.append(["noperiod"])
     pts.append(["numunit"])
     for si in range(4):
-        pts.append(["viaread", si])
+        for vers in ("2.0", "1.2"):
+            for case in ("preserve", "upper", "lower"):
+                pts.append(["viaread", si, vers, case])
     return pts
 
 
@@ -170,7 +172,7 @@ def gen_time(hour):
 
 def gen_noperiod():
     for name in ("WELL", "WELL NAME", "Run number", "ÅÄ", "A-1"):
-        for value in ("x", "14:00:32", "85.7", "a b c", "12-34", "1.5 m", "", "http://x.y/z"):
+        for value in ("x", "14:00:32", "85.7", "a b c", "12-34", "1.5 m", "", "http://x.y/z", "25.12.1988 14:30", "1.5 at 12:00", "a.b:c"):
             for p in itertools.product(("", " ", "   ", "\t"), repeat=4):
                 line = "%s%s%s:%s%s%s" % (p[0], name, p[1], p[2], value, p[3])
                 for section in SECTIONS:
@@ -210,14 +212,14 @@ def check_point(pt):
     elif kind == "numunit":
         vio, n, nt = run_lines(gen_numunit())
     else:
-        vio, n, nt = via_read(pt[1])
+        vio, n, nt = via_read(pt[1], pt[2] if len(pt) > 2 else "2.0", pt[3] if len(pt) > 3 else "preserve")
     return e1.compress(vio), (repr(pt), nt), kind, {kind + "_lines": n}, n
 
 
 SEC_TITLES = [("Version", "~Version"), ("Well", "~Well"), ("Curves", "~Curve"), ("Parameter", "~Parameter")]
 
 
-def via_read(si):
+def via_read(si, vers="2.0", case="preserve"):
     """All fields, three pad patterns, through lasio.read: the parsed items must carry the fields
     (units bracket-stripped, numeric-looking values compared as text via str())."""
     key, title = SEC_TITLES[si]
@@ -238,31 +240,35 @@ def via_read(si):
                         pass
                     lines.append(make_line(mn, unit, value, descr, pads))
                     exps.append((mn, unit, value, descr))
-            pre = "~Version\nVERS. 2.0 : v\nWRAP. NO : w\n" if key != "Version" else ""
+            head = "~Version\nVERS. %s : v\nWRAP. NO : w\n" % vers
+            pre = head if key != "Version" else ""
             text = pre + title + "\n" + "\n".join(lines) + "\n~ASCII\n1 2\n"
             if key == "Version":
-                text = "~Version\nVERS. 2.0 : v\nWRAP. NO : w\n" + "\n".join(lines) + "\n~ASCII\n1 2\n"
+                text = head + "\n".join(lines) + "\n~ASCII\n1 2\n"
             n += len(lines)
             try:
-                las = lasio.read(text, mnemonic_case="preserve", ignore_data=True)
+                las = lasio.read(text, mnemonic_case=case, ignore_data=True)
                 items = list(las.sections[key])
                 if key == "Version":
                     items = items[2:]
             except Exception as e:
-                vio.append({"clause": "via-read-raises", "sig": key, "witness": {"text": text, "si": si}, "expected": "read succeeds",
+                vio.append({"clause": "via-read-raises", "sig": key, "witness": {"text": text, "si": si, "vers": vers, "case": case}, "expected": "read succeeds",
                             "observed": "%s: %s" % (type(e).__name__, str(e)[:200]), "size": len(text), "repro": "lasio.read(text)"})
                 continue
             if len(items) != len(exps):
-                vio.append({"clause": "via-read-count", "sig": key, "witness": {"text": text, "si": si}, "expected": len(exps),
+                vio.append({"clause": "via-read-count", "sig": key, "witness": {"text": text, "si": si, "vers": vers, "case": case}, "expected": len(exps),
                             "observed": len(items), "size": len(text), "repro": "lasio.read(text)"})
                 continue
             for it, (mn, un, va, de), line in zip(items, exps, lines):
                 nt += 1
                 eu = un[1:-1] if len(un) >= 2 and ((un[0] == "[" and un[-1] == "]") or (un[0] == "(" and un[-1] == ")")) else un
+                mn = {"preserve": mn, "upper": mn.upper(), "lower": mn.lower()}[case]
+                if vers == "1.2" and key == "Well":
+                    va, de = de, va  # LAS 1.2 ~Well lines are 'MNEM.UNIT DESCRIPTION : VALUE' (the generated names are never STRT/STOP/STEP/NULL)
                 got = (it.original_mnemonic, it.unit, it.descr)
                 okv = str(it.value) == va or _numeq(it.value, va)
                 if got != (mn, eu, de) or not okv:
-                    vio.append({"clause": "via-read-fields", "sig": key, "witness": {"line": line, "section": key, "si": si},
+                    vio.append({"clause": "via-read-fields", "sig": key, "witness": {"line": line, "section": key, "si": si, "vers": vers, "case": case},
                                 "expected": [mn, eu, va, de], "observed": [it.original_mnemonic, it.unit, repr(it.value), it.descr],
                                 "size": len(line), "repro": "lasio.read(...%r...)" % line})
     return vio, n, nt
@@ -287,7 +293,7 @@ def replay(witness):
             reader_prev_done = True
         vio, _, _ = run_lines([(witness["line"], witness["section"], witness["expected"])])
         return vio
-    return via_read(witness["si"])[0]
+    return via_read(witness["si"], witness.get("vers", "2.0"), witness.get("case", "preserve"))[0]
 
 
 def units(tier, seed):
